@@ -33,7 +33,7 @@ T_refname == <<"r","e","f","s","/","h","e","a","d","s","/","x">>
 Modes == { <<"4","0","0","0","0">>, <<"1","0","0","6","4","4">>, <<"1","2","0","0","0","0">>,
            <<"1","6","0","0","0","0">>, <<"0">>, <<"7","7","7","7","7","7","7">> }
 BadModes == { <<>>, <<"8">>, <<"1","x">>, <<"7","7","7","7","7","7","7","7","7","7","7","7">> }
-Names == { <<"a">>, <<"a","SP","b">>, <<"LF">>, <<"xFF","a">>, <<>>, <<"1","0","0","6","4","4">> }
+Names == { <<"a">>, <<"a","SP","b">>, <<"SP","d">>, <<"LF">>, <<"xFF","a">>, <<>>, <<"1","0","0","6","4","4">> }
 Oids == {Bin1, Bin2}
 
 Entries == {[mode |-> m, name |-> n, oid |-> o] : m \in Modes, n \in Names, o \in Oids}
